@@ -1,5 +1,6 @@
 import CobaVerif.Model.C10
 import CobaVerif.Generated.C10Consts
+import CobaVerif.Generated.C10ReprModes
 namespace Coba.C10
 
 theorem distinctB_iff (as : List Val) : distinctB as = true ↔ Distinct as := by
@@ -2584,5 +2585,955 @@ theorem source_constants_match' :
 
 theorem cycle_source_getElem? {α} (l : List α) (hl : 0 < l.length) (j : Nat) (hj : j < l.length) :
     (rotList l.length l)[j]? = l[cycleSource l.length j]? := rotList_getElem? l hl j hj
+
+
+/-! ## Phase 5: `==` symmetric on well-formed lazy-free values (dicts by pigeonhole on unique keys) -/
+
+theorem uniq_subset_length : ∀ (l1 l2 : List String), uniqKeys l1 = true → (∀ k ∈ l1, k ∈ l2) → l1.length ≤ l2.length
+  | [], _, _, _ => by simp
+  | k :: r, l2, hu, hs => by
+    simp only [uniqKeys, Bool.and_eq_true, Bool.not_eq_true', List.contains_eq_mem, decide_eq_false_iff_not] at hu
+    have hk : k ∈ l2 := hs k (by simp)
+    have hsub : ∀ k' ∈ r, k' ∈ l2.erase k := by
+      intro k' hk'
+      have hne : k' ≠ k := fun e => hu.1 (e ▸ hk')
+      exact (List.mem_erase_of_ne hne).mpr (hs k' (by simp [hk']))
+    have ih := uniq_subset_length r (l2.erase k) hu.2 hsub
+    have hl := List.length_erase_of_mem hk
+    have hpos : 0 < l2.length := List.length_pos_of_mem hk
+    simp only [List.length_cons]
+    omega
+
+/-- pigeonhole: unique keys ⊆ keys and equal length ⇒ equal key sets -/
+theorem uniq_subset_eq_length_superset (l1 l2 : List String) (hu : uniqKeys l1 = true) (hs : ∀ k ∈ l1, k ∈ l2)
+    (hl : l1.length = l2.length) : ∀ k ∈ l2, k ∈ l1 := by
+  intro k hk
+  apply Classical.byContradiction
+  intro hn
+  have hsub : ∀ k' ∈ l1, k' ∈ l2.erase k := by
+    intro k' hk'
+    have hne : k' ≠ k := fun e => hn (e ▸ hk')
+    exact (List.mem_erase_of_ne hne).mpr (hs k' hk')
+  have := uniq_subset_length l1 (l2.erase k) hu hsub
+  have hl2 := List.length_erase_of_mem hk
+  have hpos : 0 < l2.length := List.length_pos_of_mem hk
+  omega
+
+theorem pyEqD_of_forall : ∀ (d e : List (String × Val)),
+    (∀ k w, (k, w) ∈ d → ∃ v, lookupS k e = some v ∧ pyEq w v = true) → pyEqD d e = true
+  | [], e, _ => by simp [pyEqD]
+  | (k, w) :: r, e, h => by
+    obtain ⟨v, hv, hwv⟩ := h k w (by simp)
+    simp only [pyEqD, hv, hwv, Bool.true_and]
+    exact pyEqD_of_forall r e (fun k' w' hm => h k' w' (by simp [hm]))
+
+theorem dict_symm_core (kvs d : List (String × Val)) (hu1 : uniqKeys (kvs.map (·.1)) = true) (hu2 : uniqKeys (d.map (·.1)) = true)
+    (hlen : kvs.length = d.length) (h : pyEqD kvs d = true)
+    (key : ∀ k v w, (k, v) ∈ kvs → (k, w) ∈ d → pyEq v w = true → pyEq w v = true) : pyEqD d kvs = true := by
+  apply pyEqD_of_forall
+  intro k w hm
+  have hsub : ∀ k' ∈ kvs.map (·.1), k' ∈ d.map (·.1) := by
+    intro k' hk'
+    obtain ⟨⟨k0, v0⟩, hm0, rfl⟩ := List.mem_map.mp hk'
+    obtain ⟨u, hu, _⟩ := pyEqD_mem kvs d h k0 v0 hm0
+    exact List.mem_map.mpr ⟨(k0, u), lookupS_mem d k0 u hu, rfl⟩
+  have hk : k ∈ kvs.map (·.1) :=
+    uniq_subset_eq_length_superset _ _ hu1 hsub (by simpa using hlen) k (List.mem_map.mpr ⟨(k, w), hm, rfl⟩)
+  obtain ⟨⟨k1, v⟩, hmv, hk1⟩ := List.mem_map.mp hk
+  simp only at hk1
+  subst hk1
+  obtain ⟨u, hu, hvu⟩ := pyEqD_mem kvs d h k1 v hmv
+  have hw : lookupS k1 d = some w := lookupS_of_uniq d hu2 k1 w hm
+  rw [hw] at hu
+  cases hu
+  exact ⟨v, lookupS_of_uniq kvs hu1 k1 v hmv, key k1 v w hmv hm hvu⟩
+
+mutual
+theorem pyEq_symm_imp : ∀ (a b : Val), wfNoLazy a = true → wfNoLazy b = true → pyEq a b = true → pyEq b a = true
+  | .none, b, _, _, h => by cases b <;> simp_all [pyEq]
+  | .num q, b, _, _, h => by cases b <;> simp_all [pyEq]
+  | .str s, b, _, hb, h => by cases b <;> simp_all [pyEq, wfNoLazy]
+  | .cat s l, b, _, hb, h => by cases b <;> simp_all [pyEq, wfNoLazy]
+  | .list xs, b, ha, hb, h => by
+    cases b with
+    | list ys =>
+      simp only [wfNoLazy] at ha hb
+      simp only [pyEq] at h ⊢
+      exact pyEqL_symm_imp xs ys ha hb h
+    | lazy _ _ => simp [wfNoLazy] at hb
+    | _ => simp [pyEq] at h
+  | .tuple xs, b, ha, hb, h => by
+    cases b with
+    | tuple ys =>
+      simp only [wfNoLazy] at ha hb
+      simp only [pyEq] at h ⊢
+      exact pyEqL_symm_imp xs ys ha hb h
+    | lazy _ _ => simp [wfNoLazy] at hb
+    | _ => simp [pyEq] at h
+  | .dict kvs, b, ha, hb, h => by
+    cases b with
+    | dict d =>
+      simp only [wfNoLazy, Bool.and_eq_true] at ha hb
+      simp only [pyEq, Bool.and_eq_true, beq_iff_eq] at h ⊢
+      exact ⟨h.1.symm, dict_symm_core kvs d ha.1 hb.1 h.1 h.2 (pyEqD_symm_imp kvs d ha.2 hb.2)⟩
+    | lazy _ _ => simp [wfNoLazy] at hb
+    | _ => simp [pyEq] at h
+  | .lazy _ _, _, ha, _, _ => by simp [wfNoLazy] at ha
+theorem pyEqL_symm_imp : ∀ (xs ys : List Val), wfNoLazyL xs = true → wfNoLazyL ys = true → pyEqL xs ys = true → pyEqL ys xs = true
+  | [], ys, _, _, h => by cases ys <;> simp_all [pyEqL]
+  | x :: xs, ys, ha, hb, h => by
+    cases ys with
+    | nil => simp [pyEqL] at h
+    | cons y ys =>
+      simp only [wfNoLazyL, Bool.and_eq_true] at ha hb
+      simp only [pyEqL_cons, Bool.and_eq_true] at h ⊢
+      exact ⟨pyEq_symm_imp x y ha.1 hb.1 h.1, pyEqL_symm_imp xs ys ha.2 hb.2 h.2⟩
+theorem pyEqD_symm_imp : ∀ (r d : List (String × Val)), wfNoLazyD r = true → wfNoLazyD d = true →
+    ∀ k v w, (k, v) ∈ r → (k, w) ∈ d → pyEq v w = true → pyEq w v = true
+  | [], _, _, _, _, _, _, hm, _, _ => by cases hm
+  | (k0, v0) :: r, d, ha, hb, k, v, w, hm, hd, h => by
+    simp only [wfNoLazyD, Bool.and_eq_true] at ha
+    rcases List.mem_cons.mp hm with heq | hm'
+    · cases heq
+      exact pyEq_symm_imp v0 w ha.1 (wfNoLazyD_mem d hb k0 w hd) h
+    · exact pyEqD_symm_imp r d ha.2 hb k v w hm' hd h
+end
+
+theorem pyEq_symm_wf' (a b : Val) (ha : wfNoLazy a = true) (hb : wfNoLazy b = true) : pyEq a b = pyEq b a := by
+  cases h1 : pyEq a b with
+  | true => exact (pyEq_symm_imp a b ha hb h1).symm
+  | false =>
+    cases h2 : pyEq b a with
+    | false => rfl
+    | true => rw [pyEq_symm_imp b a hb ha h2] at h1; cases h1
+
+
+
+/-! ## Phase 5: `==` on SparseDense rows is the element-wise comparison; symmetric on well-formed rows -/
+
+theorem pyEq_num_zero (y : Val) : pyEq (.num 0) y = isZero y := by
+  cases y <;> simp [pyEq, isZero, beq_comm' (0 : Rat)]
+
+theorem pyEq_zero_num (x : Val) (hx : wfNoLazy x = true) : pyEq x (.num 0) = isZero x := by
+  cases x <;> simp_all [pyEq, isZero, wfNoLazy]
+
+theorem pyEqIdx_iff : ∀ (xs : List Val) (i : Nat) (kvs : List (Nat × Val)),
+    pyEqIdx xs i kvs = true ↔ ∀ j x, xs[j]? = some x → pyEq x (lazyAt kvs (i + j)) = true
+  | [], i, kvs => by simp [pyEqIdx]
+  | x :: xs, i, kvs => by
+    simp only [pyEqIdx, Bool.and_eq_true, pyEqIdx_iff xs (i + 1) kvs]
+    constructor
+    · rintro ⟨h0, h⟩ j y hj
+      cases j with
+      | zero => simp at hj; subst hj; simpa using h0
+      | succ j => simp at hj; have := h j y hj; rwa [show i + 1 + j = i + (j + 1) by omega] at this
+    · intro h
+      refine ⟨by simpa using h 0 x (by simp), fun j y hj => ?_⟩
+      have := h (j + 1) y (by simpa using hj)
+      rwa [show i + (j + 1) = i + 1 + j by omega] at this
+
+theorem pyEqZ_iff : ∀ (kvs : List (Nat × Val)) (ys : List Val),
+    pyEqZ kvs ys = true ↔ ∀ k v, (k, v) ∈ kvs → ∃ w, ys[k]? = some w ∧ pyEq v w = true
+  | [], ys => by simp [pyEqZ]
+  | (k0, v0) :: r, ys => by
+    simp only [pyEqZ, Bool.and_eq_true, pyEqZ_iff r ys]
+    constructor
+    · rintro ⟨h0, h⟩ k v hm
+      rcases List.mem_cons.mp hm with heq | hm'
+      · cases heq
+        cases hy : ys[k0]? with
+        | none => simp [hy] at h0
+        | some w => simp only [hy] at h0; exact ⟨w, rfl, h0⟩
+      · exact h k v hm'
+    · intro h
+      refine ⟨?_, fun k v hm => h k v (List.mem_cons_of_mem _ hm)⟩
+      obtain ⟨w, hw, hvw⟩ := h k0 v0 (by simp)
+      simp [hw, hvw]
+
+theorem zerosMatch_iff : ∀ (kvs : List (Nat × Val)) (i : Nat) (ys : List Val),
+    zerosMatch kvs i ys = true ↔ ∀ j y, ys[j]? = some y → ((lookupN (i + j) kvs).isSome = true ∨ isZero y = true)
+  | kvs, i, [] => by simp [zerosMatch]
+  | kvs, i, y :: ys => by
+    simp only [zerosMatch, Bool.and_eq_true, Bool.or_eq_true, zerosMatch_iff kvs (i + 1) ys]
+    constructor
+    · rintro ⟨h0, h⟩ j z hj
+      cases j with
+      | zero => simp at hj; subst hj; simpa using h0
+      | succ j => simp at hj; have := h j z hj; rwa [show i + 1 + j = i + (j + 1) by omega] at this
+    · intro h
+      refine ⟨by simpa using h 0 y (by simp), fun j z hj => ?_⟩
+      have := h (j + 1) z (by simpa using hj)
+      rwa [show i + (j + 1) = i + 1 + j by omega] at this
+
+theorem lookupN_mem : ∀ (d : List (Nat × Val)) (k : Nat) (w : Val), lookupN k d = some w → (k, w) ∈ d
+  | [], k, w, h => by simp [lookupN] at h
+  | (k0, v0) :: r, k, w, h => by
+    simp only [lookupN] at h
+    by_cases hk : (k0 == k) = true
+    · simp only [hk, if_true, Option.some.injEq] at h
+      have : k0 = k := by simpa using hk
+      subst this; subst h; simp
+    · simp only [hk] at h
+      exact List.mem_cons_of_mem _ (lookupN_mem r k w h)
+
+theorem lookupN_of_uniq : ∀ (kvs : List (Nat × Val)), natKeysUniq (kvs.map (·.1)) = true →
+    ∀ k v, (k, v) ∈ kvs → lookupN k kvs = some v
+  | [], _, k, v, h => by cases h
+  | (k0, v0) :: r, hu, k, v, h => by
+    simp only [List.map_cons, natKeysUniq, Bool.and_eq_true, Bool.not_eq_true'] at hu
+    simp only [lookupN]
+    cases h with
+    | head => simp
+    | tail _ h' =>
+      have hne : (k0 == k) = false := by
+        cases hb : (k0 == k) with
+        | false => rfl
+        | true =>
+          have : k0 = k := by simpa using hb
+          subst this
+          have : (r.map (·.1)).contains k0 = true := by
+            simp only [List.contains_iff_mem, List.mem_map]
+            exact ⟨(k0, v), h', rfl⟩
+          rw [this] at hu; exact absurd hu.1 (by simp)
+      simp only [hne, Bool.false_eq_true, if_false]
+      exact lookupN_of_uniq r hu.2 k v h'
+
+theorem lazyWf_mem {kvs : List (Nat × Val)} {n : Nat} (h : lazyWf kvs n = true) {k : Nat} {v : Val} (hm : (k, v) ∈ kvs) :
+    k < n ∧ wfNoLazy v = true ∧ lookupN k kvs = some v := by
+  simp only [lazyWf, Bool.and_eq_true, List.all_eq_true, decide_eq_true_eq] at h
+  exact ⟨(h.2 _ hm).1, (h.2 _ hm).2, lookupN_of_uniq kvs h.1 k v hm⟩
+
+theorem lazyAt_wf {kvs : List (Nat × Val)} {n : Nat} (h : lazyWf kvs n = true) (i : Nat) : wfNoLazy (lazyAt kvs i) = true := by
+  unfold lazyAt
+  cases hl : lookupN i kvs with
+  | none => simp [wfNoLazy]
+  | some v => simpa using (lazyWf_mem h (lookupN_mem kvs i v hl)).2.1
+
+/-- the right-hand form of `SparseDense == sequence` (stored values + implicit zeros) is the element-wise comparison -/
+theorem lazy_rhs_iff (kvs : List (Nat × Val)) (n : Nat) (ys : List Val) (hw : lazyWf kvs n = true) (hl : ys.length = n) :
+    (pyEqZ kvs ys && zerosMatch kvs 0 ys) = true ↔ ∀ i y, ys[i]? = some y → pyEq (lazyAt kvs i) y = true := by
+  simp only [Bool.and_eq_true, pyEqZ_iff, zerosMatch_iff, Nat.zero_add]
+  constructor
+  · rintro ⟨hz, h0⟩ i y hy
+    unfold lazyAt
+    cases hk : lookupN i kvs with
+    | some v =>
+      obtain ⟨w, hw', hvw⟩ := hz i v (lookupN_mem kvs i v hk)
+      rw [hy] at hw'; cases hw'; simpa using hvw
+    | none =>
+      rcases h0 i y hy with h | h
+      · simp [hk] at h
+      · simpa [pyEq_num_zero] using h
+  · intro h
+    refine ⟨fun k v hm => ?_, fun j y hy => ?_⟩
+    · obtain ⟨hlt, _, hlk⟩ := lazyWf_mem hw hm
+      have hlt' : k < ys.length := by omega
+      refine ⟨ys[k], by simp [hlt'], ?_⟩
+      have := h k ys[k] (by simp [hlt'])
+      simpa [lazyAt, hlk] using this
+    · cases hk : lookupN j kvs with
+      | some v => simp
+      | none =>
+        right
+        have := h j y hy
+        simpa [lazyAt, hk, pyEq_num_zero] using this
+
+theorem expand_getElem? (kvs : List (Nat × Val)) (n i : Nat) : (expand kvs n)[i]? = if i < n then some (lazyAt kvs i) else none := by
+  unfold expand
+  by_cases h : i < n <;> simp [h]
+
+theorem expand_length (kvs : List (Nat × Val)) (n : Nat) : (expand kvs n).length = n := by simp [expand]
+
+/-- `SparseDense == list/tuple` in both operand orders -/
+theorem pyEq_symm_lazy_seq (kvs : List (Nat × Val)) (n : Nat) (xs : List Val) (hw : lazyWf kvs n = true) (hx : wfNoLazyL xs = true) :
+    (xs.length == n && pyEqIdx xs 0 kvs) = (xs.length == n && pyEqZ kvs xs && zerosMatch kvs 0 xs) := by
+  by_cases hl : xs.length = n
+  · have hmem : ∀ (i : Nat) (x : Val), xs[i]? = some x → wfNoLazy x = true := by
+      intro i x hi
+      have : ∀ (l : List Val), wfNoLazyL l = true → ∀ x ∈ l, wfNoLazy x = true := by
+        intro l; induction l with
+        | nil => intro _ x hx; cases hx
+        | cons a l ih =>
+          intro h x hx
+          simp only [wfNoLazyL, Bool.and_eq_true] at h
+          rcases List.mem_cons.mp hx with rfl | hx'
+          · exact h.1
+          · exact ih h.2 x hx'
+      exact this xs hx x (List.mem_of_getElem? hi)
+    have e1 : (xs.length == n) = true := by simpa using hl
+    rw [e1, Bool.true_and, Bool.and_assoc, Bool.true_and]
+    rw [Bool.eq_iff_iff, pyEqIdx_iff, lazy_rhs_iff kvs n xs hw hl]
+    simp only [Nat.zero_add]
+    constructor
+    · intro h i y hy
+      rw [pyEq_symm_wf' _ _ (lazyAt_wf hw i) (hmem i y hy)]; exact h i y hy
+    · intro h i y hy
+      rw [pyEq_symm_wf' _ _ (hmem i y hy) (lazyAt_wf hw i)]; exact h i y hy
+  · have e1 : (xs.length == n) = false := by simpa using hl
+    simp [e1]
+
+/-- two SparseDense rows: `==` is the element-wise comparison over the common length -/
+theorem pyEq_lazy_lazy_iff (k1 k2 : List (Nat × Val)) (n1 n2 : Nat) (h1 : lazyWf k1 n1 = true) :
+    pyEq (.lazy k1 n1) (.lazy k2 n2) = true ↔ n2 = n1 ∧ ∀ i, i < n1 → pyEq (lazyAt k1 i) (lazyAt k2 i) = true := by
+  simp only [pyEq, denseItems, expand_length, Bool.and_eq_true, beq_iff_eq, Bool.and_assoc]
+  constructor
+  · rintro ⟨hn, h⟩
+    subst hn
+    have := (lazy_rhs_iff k1 n2 (expand k2 n2) h1 (expand_length _ _)).mp (by simpa using h)
+    refine ⟨rfl, fun i hi => this i _ (by simp [expand_getElem?, hi])⟩
+  · rintro ⟨hn, h⟩
+    subst hn
+    refine ⟨rfl, ?_⟩
+    have := (lazy_rhs_iff k1 n2 (expand k2 n2) h1 (expand_length _ _)).mpr (by
+      intro i y hy
+      rw [expand_getElem?] at hy
+      by_cases hi : i < n2
+      · simp only [hi, if_true, Option.some.injEq] at hy; subst hy; exact h i hi
+      · simp [hi] at hy)
+    simpa using this
+
+theorem pyEq_symm_rows' (a b : Val) (ha : wfRow a = true) (hb : wfRow b = true) : pyEq a b = pyEq b a := by
+  cases a with
+  | lazy k1 n1 =>
+    cases b with
+    | lazy k2 n2 =>
+      simp only [wfRow] at ha hb
+      rw [Bool.eq_iff_iff, pyEq_lazy_lazy_iff k1 k2 n1 n2 ha, pyEq_lazy_lazy_iff k2 k1 n2 n1 hb]
+      constructor
+      · rintro ⟨hn, h⟩; subst hn
+        exact ⟨rfl, fun i hi => by rw [pyEq_symm_wf' _ _ (lazyAt_wf hb i) (lazyAt_wf ha i)]; exact h i hi⟩
+      · rintro ⟨hn, h⟩; subst hn
+        exact ⟨rfl, fun i hi => by rw [pyEq_symm_wf' _ _ (lazyAt_wf ha i) (lazyAt_wf hb i)]; exact h i hi⟩
+    | list xs =>
+      simp only [wfRow, wfNoLazy] at ha hb
+      have := pyEq_symm_lazy_seq k1 n1 xs ha hb
+      simp only [pyEq, denseItems]; rw [this]
+    | tuple xs =>
+      simp only [wfRow, wfNoLazy] at ha hb
+      have := pyEq_symm_lazy_seq k1 n1 xs ha hb
+      simp only [pyEq, denseItems]; rw [this]
+    | _ => simp [pyEq, denseItems]
+  | list xs =>
+    cases b with
+    | lazy k2 n2 =>
+      simp only [wfRow, wfNoLazy] at ha hb
+      have := pyEq_symm_lazy_seq k2 n2 xs hb ha
+      simp only [pyEq, denseItems]; rw [this]
+    | _ => exact pyEq_symm_wf' _ _ (by simpa [wfRow] using ha) (by simpa [wfRow] using hb)
+  | tuple xs =>
+    cases b with
+    | lazy k2 n2 =>
+      simp only [wfRow, wfNoLazy] at ha hb
+      have := pyEq_symm_lazy_seq k2 n2 xs hb ha
+      simp only [pyEq, denseItems]; rw [this]
+    | _ => exact pyEq_symm_wf' _ _ (by simpa [wfRow] using ha) (by simpa [wfRow] using hb)
+  | _ =>
+    cases b with
+    | lazy k2 n2 => simp [pyEq, denseItems]
+    | _ => exact pyEq_symm_wf' _ _ (by simpa [wfRow] using ha) (by simpa [wfRow] using hb)
+
+
+
+/-! ## Phase 5: Densify — distinct slots ⇒ distinct SparseDense rows -/
+
+theorem assocGet_append_none (k : String) : ∀ (t ext : List (String × Nat)), assocGet k t = none → assocGet k (t ++ ext) = assocGet k ext
+  | [], ext, _ => by simp
+  | (k', v) :: t, ext, h => by
+    simp only [assocGet, List.cons_append] at h ⊢
+    by_cases hk : (k' == k) = true
+    · simp [hk] at h
+    · simp only [hk] at h ⊢; exact assocGet_append_none k t ext h
+
+theorem denseIndex_slot (m : DMethod) (st st1 : DState) (k : String) (i : Nat) (h : denseIndex m st k = .ok (st1, i)) :
+    assocGet k (tableOf m st1) = some i := by
+  cases m with
+  | hashing tbl =>
+    simp only [denseIndex] at h
+    cases hg : assocGet k tbl with
+    | none => simp [hg] at h
+    | some j => simp [hg] at h; simp [tableOf, hg, h.2]
+  | lookup p =>
+    simp only [denseIndex] at h
+    cases hg : assocGet k st.table with
+    | some j => simp [hg] at h; simp [tableOf, ← h.1, hg, h.2]
+    | none =>
+      simp only [hg] at h
+      cases hf : st.fresh with
+      | nil => simp [hf] at h
+      | cons j rest =>
+        simp [hf] at h
+        simp [tableOf, ← h.1, assocGet_append_none k _ _ hg, assocGet, h.2]
+
+theorem tableOf_mono (m : DMethod) (ks : List String) (st st' : DState) (h : primeKeys m st ks = .ok st') :
+    ∀ k i, assocGet k (tableOf m st) = some i → assocGet k (tableOf m st') = some i := by
+  intro k i hk
+  cases m with
+  | hashing t => simpa [tableOf] using hk
+  | lookup p =>
+    obtain ⟨ext, he⟩ := primeKeys_mono (.lookup p) ks st st' h
+    simp only [tableOf] at hk ⊢
+    rw [he]; exact assocGet_append_left k i _ ext hk
+
+theorem denseEntries_eq_entsAcc (m : DMethod) (T : List (String × Nat)) : ∀ (st : DState) (d : List (String × Val)) (acc : List (Nat × Val))
+    (st' : DState) (out : List (Nat × Val)), denseEntries m st d acc = .ok (st', out) →
+    (∀ k i, assocGet k (tableOf m st') = some i → assocGet k T = some i) → out = entsAcc (slotFn T) d acc
+  | st, [], acc, st', out, h, _ => by simp [denseEntries] at h; simp [entsAcc, h.2]
+  | st, (k, v) :: rest, acc, st', out, h, hT => by
+    simp only [denseEntries] at h
+    cases hd : denseIndex m st k with
+    | error e => simp [hd] at h
+    | ok r =>
+      obtain ⟨st1, i⟩ := r
+      simp only [hd] at h
+      have hs := denseIndex_slot m st st1 k i hd
+      have hmono := tableOf_mono m _ st1 st' (denseEntries_state m st1 rest _ st' out h)
+      have : slotFn T k = i := by simp [slotFn, hT k i (hmono k i hs)]
+      simp only [entsAcc, this]
+      exact denseEntries_eq_entsAcc m T st1 rest _ st' out h hT
+
+theorem lookupN_natSet (i j : Nat) (v : Val) : ∀ (acc : List (Nat × Val)), lookupN i (natSet j v acc) = if j == i then some v else lookupN i acc
+  | [] => by simp [natSet, lookupN]
+  | (k', v') :: r => by
+    simp only [natSet]
+    by_cases hk : (k' == j) = true
+    · have : k' = j := by simpa using hk
+      subst this
+      simp only [beq_self_eq_true, if_true, lookupN]
+      by_cases hi : (k' == i) = true <;> simp [hi]
+    · simp only [hk, lookupN, Bool.false_eq_true, if_false]
+      by_cases hi : (k' == i) = true
+      · have : k' = i := by simpa using hi
+        subst this
+        have : (j == k') = false := by
+          cases hj : (j == k') with
+          | false => rfl
+          | true => have : j = k' := by simpa using hj
+                    subst this; simp at hk
+        simp [this]
+      · simp only [hi, Bool.false_eq_true, if_false]; exact lookupN_natSet i j v r
+
+theorem entsAcc_lookup_other (slot : String → Nat) (i : Nat) : ∀ (d : List (String × Val)) (acc : List (Nat × Val)),
+    (∀ k ∈ d.map (·.1), slot k ≠ i) → lookupN i (entsAcc slot d acc) = lookupN i acc
+  | [], acc, _ => by simp [entsAcc]
+  | (k, v) :: r, acc, h => by
+    simp only [entsAcc]
+    rw [entsAcc_lookup_other slot i r _ (fun k' hk' => h k' (by simp at hk' ⊢; exact Or.inr hk'))]
+    have : (slot k == i) = false := by simpa using h k (by simp)
+    rw [lookupN_natSet, this]; simp
+
+theorem uniqKeys_cons {k : String} {ks : List String} (h : uniqKeys (k :: ks) = true) : k ∉ ks ∧ uniqKeys ks = true := by
+  simp only [uniqKeys, Bool.and_eq_true, Bool.not_eq_true', List.contains_eq_mem, decide_eq_false_iff_not] at h
+  exact h
+
+theorem entsAcc_lookup_mem (slot : String → Nat) : ∀ (d : List (String × Val)) (acc : List (Nat × Val)),
+    uniqKeys (d.map (·.1)) = true → (∀ k ∈ d.map (·.1), ∀ k' ∈ d.map (·.1), slot k = slot k' → k = k') →
+    ∀ k v, (k, v) ∈ d → lookupN (slot k) (entsAcc slot d acc) = some v
+  | [], _, _, _, k, v, hm => by cases hm
+  | (k0, v0) :: r, acc, hu, hinj, k, v, hm => by
+    simp only [List.map_cons] at hu hinj
+    obtain ⟨hnot, hu'⟩ := uniqKeys_cons hu
+    simp only [entsAcc]
+    rcases List.mem_cons.mp hm with heq | hm'
+    · cases heq
+      rw [entsAcc_lookup_other slot (slot k0) r _ (fun k' hk' e => hnot (by
+        have := hinj k' (List.mem_cons_of_mem _ hk') k0 (by simp) e
+        exact this ▸ hk'))]
+      rw [lookupN_natSet]; simp
+    · exact entsAcc_lookup_mem slot r _ hu' (fun a ha b hb e => hinj a (List.mem_cons_of_mem _ ha) b (List.mem_cons_of_mem _ hb) e) k v hm'
+
+theorem natKeysUniq_natSet (j : Nat) (v : Val) : ∀ (acc : List (Nat × Val)), natKeysUniq (acc.map (·.1)) = true →
+    natKeysUniq ((natSet j v acc).map (·.1)) = true ∧ ∀ x ∈ (natSet j v acc).map (·.1), x = j ∨ x ∈ acc.map (·.1)
+  | [], _ => by simp [natSet, natKeysUniq]
+  | (k', v') :: r, h => by
+    simp only [List.map_cons, natKeysUniq, Bool.and_eq_true, Bool.not_eq_true', List.contains_eq_mem, decide_eq_false_iff_not] at h
+    simp only [natSet]
+    by_cases hk : (k' == j) = true
+    · have : k' = j := by simpa using hk
+      subst this
+      simp only [beq_self_eq_true, if_true, List.map_cons, natKeysUniq, Bool.and_eq_true, Bool.not_eq_true', List.contains_eq_mem, decide_eq_false_iff_not]
+      exact ⟨h, fun x hx => by simp at hx ⊢; rcases hx with h1 | h1 <;> simp [h1]⟩
+    · simp only [hk, Bool.false_eq_true, if_false, List.map_cons, natKeysUniq, Bool.and_eq_true, Bool.not_eq_true', List.contains_eq_mem, decide_eq_false_iff_not]
+      obtain ⟨ih1, ih2⟩ := natKeysUniq_natSet j v r h.2
+      refine ⟨⟨fun hc => ?_, ih1⟩, fun x hx => ?_⟩
+      · rcases ih2 k' hc with e | e
+        · exact hk (by simp [e])
+        · exact h.1 e
+      · rcases List.mem_cons.mp hx with e | e
+        · right; simp [e]
+        · rcases ih2 x e with e' | e'
+          · left; exact e'
+          · right; simp [e']
+
+theorem natSet_mem (j : Nat) (v : Val) : ∀ (acc : List (Nat × Val)) (p : Nat × Val), p ∈ natSet j v acc → p = (j, v) ∨ p ∈ acc
+  | [], p, h => by simp [natSet] at h; exact Or.inl h
+  | (k', v') :: r, p, h => by
+    simp only [natSet] at h
+    by_cases hk : (k' == j) = true
+    · simp only [hk, if_true] at h
+      rcases List.mem_cons.mp h with e | e
+      · have : k' = j := by simpa using hk
+        left; rw [e, this]
+      · right; exact List.mem_cons_of_mem _ e
+    · simp only [hk, Bool.false_eq_true, if_false] at h
+      rcases List.mem_cons.mp h with e | e
+      · right; rw [e]; simp
+      · rcases natSet_mem j v r p e with e' | e'
+        · left; exact e'
+        · right; exact List.mem_cons_of_mem _ e'
+
+theorem entsAcc_lazyWf (slot : String → Nat) (n : Nat) : ∀ (d : List (String × Val)) (acc : List (Nat × Val)),
+    lazyWf acc n = true → wfNoLazyD d = true → (∀ k ∈ d.map (·.1), slot k < n) → lazyWf (entsAcc slot d acc) n = true
+  | [], acc, h, _, _ => by simpa [entsAcc] using h
+  | (k, v) :: r, acc, h, hw, hlt => by
+    simp only [wfNoLazyD, Bool.and_eq_true] at hw
+    simp only [entsAcc]
+    refine entsAcc_lazyWf slot n r _ ?_ hw.2 (fun k' hk' => hlt k' (by simp at hk' ⊢; exact Or.inr hk'))
+    simp only [lazyWf, Bool.and_eq_true, List.all_eq_true, decide_eq_true_eq] at h ⊢
+    refine ⟨(natKeysUniq_natSet (slot k) v acc h.1).1, fun p hp => ?_⟩
+    rcases natSet_mem (slot k) v acc p hp with e | e
+    · subst e; exact ⟨hlt k (by simp), hw.1⟩
+    · exact h.2 p e
+
+theorem slotsInjB_spec {T : List (String × Nat)} {keys : List String} {n : Nat} (h : slotsInjB T keys n = true) :
+    (∀ k ∈ keys, slotFn T k < n) ∧ (∀ k ∈ keys, ∀ k' ∈ keys, slotFn T k = slotFn T k' → k = k') := by
+  simp only [slotsInjB, Bool.and_eq_true, List.all_eq_true, Bool.or_eq_true, beq_iff_eq, bne_iff_ne, ne_eq] at h
+  refine ⟨fun k hk => ?_, fun k hk k' hk' e => ?_⟩
+  · have := h.1 k hk
+    cases hg : assocGet k T with
+    | none => simp [hg] at this
+    | some i => simp only [hg, decide_eq_true_eq] at this; simpa [slotFn, hg] using this
+  · rcases h.2 k hk k' hk' with e' | e'
+    · exact e'
+    · exact absurd e e'
+
+theorem noZeroD_mem {d : List (String × Val)} (h : noZeroD d = true) {k : String} {v : Val} (hm : (k, v) ∈ d) : isZero v = false := by
+  simp only [noZeroD, List.all_eq_true, Bool.not_eq_true'] at h
+  exact h (k, v) hm
+
+theorem lazyAt_entsAcc_mem (slot : String → Nat) (d : List (String × Val)) (hu : uniqKeys (d.map (·.1)) = true)
+    (hinj : ∀ k ∈ d.map (·.1), ∀ k' ∈ d.map (·.1), slot k = slot k' → k = k') {k : String} {v : Val} (hm : (k, v) ∈ d) :
+    lazyAt (entsAcc slot d []) (slot k) = v := by
+  simp [lazyAt, entsAcc_lookup_mem slot d [] hu hinj k v hm]
+
+theorem lazyAt_entsAcc_other (slot : String → Nat) (d : List (String × Val)) (i : Nat) (h : ∀ k ∈ d.map (·.1), slot k ≠ i) :
+    lazyAt (entsAcc slot d []) i = .num 0 := by
+  simp [lazyAt, entsAcc_lookup_other slot i d [] h, lookupN]
+
+theorem mem_keys_of_mem {d : List (String × Val)} {k : String} {v : Val} (hm : (k, v) ∈ d) : k ∈ d.map (·.1) :=
+  List.mem_map.mpr ⟨(k, v), hm, rfl⟩
+
+/-- **distinct slots ⇒ distinct SparseDense rows**: under a slot function that is injective on the keys of two sparse rows (all slots
+below `n`), the two dense rows compare exactly as the sparse rows did -/
+theorem densify_rows_pyEq (slot : String → Nat) (n : Nat) (d1 d2 : List (String × Val))
+    (w1 : sparseRowWf d1 = true) (w2 : sparseRowWf d2 = true)
+    (hlt : ∀ k ∈ d1.map (·.1) ++ d2.map (·.1), slot k < n)
+    (hinj : ∀ k ∈ d1.map (·.1) ++ d2.map (·.1), ∀ k' ∈ d1.map (·.1) ++ d2.map (·.1), slot k = slot k' → k = k') :
+    pyEq (.lazy (entsAcc slot d1 []) n) (.lazy (entsAcc slot d2 []) n) = pyEq (.dict d1) (.dict d2) := by
+  simp only [sparseRowWf, Bool.and_eq_true] at w1 w2
+  obtain ⟨⟨u1, wf1⟩, nz1⟩ := w1
+  obtain ⟨⟨u2, wf2⟩, nz2⟩ := w2
+  have inj1 : ∀ k ∈ d1.map (·.1), ∀ k' ∈ d1.map (·.1), slot k = slot k' → k = k' :=
+    fun k hk k' hk' e => hinj k (List.mem_append_left _ hk) k' (List.mem_append_left _ hk') e
+  have inj2 : ∀ k ∈ d2.map (·.1), ∀ k' ∈ d2.map (·.1), slot k = slot k' → k = k' :=
+    fun k hk k' hk' e => hinj k (List.mem_append_right _ hk) k' (List.mem_append_right _ hk') e
+  have lw1 : lazyWf (entsAcc slot d1 []) n = true :=
+    entsAcc_lazyWf slot n d1 [] (by simp [lazyWf, natKeysUniq]) wf1 (fun k hk => hlt k (List.mem_append_left _ hk))
+  rw [Bool.eq_iff_iff, pyEq_lazy_lazy_iff _ _ n n lw1]
+  simp only [pyEq, Bool.and_eq_true, beq_iff_eq, true_and]
+  constructor
+  · intro h
+    -- every key of d1 is a key of d2 with an equal value
+    have fwd : ∀ k v, (k, v) ∈ d1 → ∃ w, lookupS k d2 = some w ∧ pyEq v w = true := by
+      intro k v hm
+      have hk := mem_keys_of_mem hm
+      have hi := h (slot k) (hlt k (List.mem_append_left _ hk))
+      rw [lazyAt_entsAcc_mem slot d1 u1 inj1 hm] at hi
+      by_cases hk2 : k ∈ d2.map (·.1)
+      · obtain ⟨⟨k', w⟩, hmw, hk'⟩ := List.mem_map.mp hk2
+        simp only at hk'; subst hk'
+        rw [lazyAt_entsAcc_mem slot d2 u2 inj2 hmw] at hi
+        exact ⟨w, lookupS_of_uniq d2 u2 k' w hmw, hi⟩
+      · rw [lazyAt_entsAcc_other slot d2 (slot k) (fun k' hk' e => hk2 (by
+          have := hinj k' (List.mem_append_right _ hk') k (List.mem_append_left _ hk) e
+          exact this ▸ hk'))] at hi
+        rw [pyEq_zero_num v (wfNoLazyD_mem d1 wf1 k v hm), noZeroD_mem nz1 hm] at hi
+        cases hi
+    have sub12 : ∀ k ∈ d1.map (·.1), k ∈ d2.map (·.1) := by
+      intro k hk
+      obtain ⟨⟨k', v⟩, hmv, hk'⟩ := List.mem_map.mp hk
+      simp only at hk'; subst hk'
+      obtain ⟨w, hw, _⟩ := fwd k' v hmv
+      exact mem_keys_of_mem (lookupS_mem d2 k' w hw)
+    have sub21 : ∀ k ∈ d2.map (·.1), k ∈ d1.map (·.1) := by
+      intro k hk
+      obtain ⟨⟨k', w⟩, hmw, hk'⟩ := List.mem_map.mp hk
+      simp only at hk'; subst hk'
+      apply Classical.byContradiction
+      intro hn
+      have hi := h (slot k') (hlt k' (List.mem_append_right _ hk))
+      rw [lazyAt_entsAcc_mem slot d2 u2 inj2 hmw, lazyAt_entsAcc_other slot d1 (slot k') (fun k hk1 e => hn (by
+          have := hinj k (List.mem_append_left _ hk1) k' (List.mem_append_right _ hk) e
+          exact this ▸ hk1)), pyEq_num_zero, noZeroD_mem nz2 hmw] at hi
+      cases hi
+    refine ⟨?_, pyEqD_of_forall d1 d2 fwd⟩
+    have a := uniq_subset_length _ _ u1 sub12
+    have b := uniq_subset_length _ _ u2 sub21
+    simp only [List.length_map] at a b
+    omega
+  · rintro ⟨hlen, hD⟩ i hi
+    have sub12 : ∀ k ∈ d1.map (·.1), k ∈ d2.map (·.1) := by
+      intro k hk
+      obtain ⟨⟨k', v⟩, hmv, hk'⟩ := List.mem_map.mp hk
+      simp only at hk'; subst hk'
+      obtain ⟨w, hw, _⟩ := pyEqD_mem d1 d2 hD k' v hmv
+      exact mem_keys_of_mem (lookupS_mem d2 k' w hw)
+    have sub21 := uniq_subset_eq_length_superset _ _ u1 sub12 (by simpa using hlen)
+    by_cases hex : ∃ k ∈ d1.map (·.1), slot k = i
+    · obtain ⟨k, hk, rfl⟩ := hex
+      obtain ⟨⟨k', v⟩, hmv, hk'⟩ := List.mem_map.mp hk
+      simp only at hk'; subst hk'
+      obtain ⟨w, hw, hvw⟩ := pyEqD_mem d1 d2 hD k' v hmv
+      rw [lazyAt_entsAcc_mem slot d1 u1 inj1 hmv, lazyAt_entsAcc_mem slot d2 u2 inj2 (lookupS_mem d2 k' w hw)]
+      exact hvw
+    · have h1 : ∀ k ∈ d1.map (·.1), slot k ≠ i := fun k hk e => hex ⟨k, hk, e⟩
+      have h2 : ∀ k ∈ d2.map (·.1), slot k ≠ i := fun k hk e => hex ⟨k, sub21 k hk, e⟩
+      rw [lazyAt_entsAcc_other slot d1 i h1, lazyAt_entsAcc_other slot d2 i h2]
+      simp [pyEq]
+
+theorem makeDense_eq_denseOf (m : DMethod) (n : Nat) (T : List (String × Nat)) (st st' : DState) (v v' : Val)
+    (h : makeDense m n st v = .ok (st', v')) (hT : ∀ k i, assocGet k (tableOf m st') = some i → assocGet k T = some i) :
+    v' = denseOf T n v := by
+  cases v with
+  | dict d =>
+    simp only [makeDense] at h
+    cases hd : denseEntries m st d [] with
+    | error e => simp [hd] at h
+    | ok r =>
+      obtain ⟨st1, out⟩ := r
+      simp only [hd, Except.ok.injEq, Prod.mk.injEq] at h
+      obtain ⟨h1, h2⟩ := h
+      subst h1
+      rw [← h2, denseEntries_eq_entsAcc m T st d [] st1 out hd hT]; rfl
+  | _ => simp [makeDense] at h; simp [denseOf, h.2]
+
+theorem makeDenseList_eq_map (m : DMethod) (n : Nat) (T : List (String × Nat)) : ∀ (st : DState) (vs : List Val) (st' : DState) (vs' : List Val),
+    makeDenseList m n st vs = .ok (st', vs') → (∀ k i, assocGet k (tableOf m st') = some i → assocGet k T = some i) →
+    vs' = vs.map (denseOf T n)
+  | st, [], st', vs', h, _ => by simp [makeDenseList] at h; simp [h.2]
+  | st, v :: vs, st', vs', h, hT => by
+    simp only [makeDenseList] at h
+    cases h1 : makeDense m n st v with
+    | error e => simp [h1] at h
+    | ok r1 =>
+      obtain ⟨st1, v1⟩ := r1
+      simp only [h1] at h
+      cases h2 : makeDenseList m n st1 vs with
+      | error e => simp [h2] at h
+      | ok r2 =>
+        obtain ⟨st2, vs2⟩ := r2
+        simp only [h2, Except.ok.injEq, Prod.mk.injEq] at h
+        obtain ⟨e1, e2⟩ := h
+        subst e1
+        have hmono := tableOf_mono m _ st1 st2 (makeDenseList_state m n st1 vs st2 vs2 h2)
+        rw [← e2, List.map_cons, makeDense_eq_denseOf m n T st st1 v v1 h1 (fun k i hk => hT k i (hmono k i hk)),
+          makeDenseList_eq_map m n T st1 vs st2 vs2 h2 hT]
+
+theorem keysOfVals_mem : ∀ (as : List Val) (j : Nat) (d : List (String × Val)), as[j]? = some (.dict d) →
+    ∀ k ∈ d.map (·.1), k ∈ keysOfVals as
+  | [], j, d, h, _, _ => by simp at h
+  | a :: as, 0, d, h, k, hk => by
+    simp at h; subst h
+    simp only [keysOfVals, keysOfVal, List.mem_append]; exact Or.inl hk
+  | a :: as, j + 1, d, h, k, hk => by
+    simp at h
+    simp only [keysOfVals, List.mem_append]; exact Or.inr (keysOfVals_mem as j d h k hk)
+
+/-- Densify on an action set of sparse rows: if the table gives the keys of the set pairwise different slots below `n_feats`, the dense
+rows form a set again -/
+theorem densify_actions_distinct' (m : DMethod) (n : Nat) (st st' : DState) (as as' : List Val)
+    (hrun : makeDenseList m n st as = .ok (st', as')) (hrows : sparseRowsB as = true)
+    (hslots : slotsInjB (tableOf m st') (keysOfVals as) n = true) (hd : Distinct as) : Distinct as' := by
+  have hmap := makeDenseList_eq_map m n (tableOf m st') st as st' as' hrun (fun _ _ h => h)
+  obtain ⟨hlt, hinj⟩ := slotsInjB_spec hslots
+  subst hmap
+  intro i j a' b' hi hj
+  simp only [List.getElem?_map, Option.map_eq_some_iff] at hi hj
+  obtain ⟨a, hia, rfl⟩ := hi
+  obtain ⟨b, hjb, rfl⟩ := hj
+  simp only [sparseRowsB, List.all_eq_true] at hrows
+  have ra := hrows a (List.mem_of_getElem? hia)
+  have rb := hrows b (List.mem_of_getElem? hjb)
+  cases a with
+  | dict d1 =>
+    cases b with
+    | dict d2 =>
+      simp only at ra rb
+      have k1 := keysOfVals_mem as i d1 hia
+      have k2 := keysOfVals_mem as j d2 hjb
+      have hsub : ∀ k ∈ d1.map (·.1) ++ d2.map (·.1), k ∈ keysOfVals as := fun k hk => by
+        rcases List.mem_append.mp hk with h | h
+        · exact k1 k h
+        · exact k2 k h
+      simp only [denseOf]
+      rw [densify_rows_pyEq (slotFn (tableOf m st')) n d1 d2 ra rb (fun k hk => hlt k (hsub k hk))
+        (fun k hk k' hk' e => hinj k (hsub k hk) k' (hsub k' hk') e)]
+      exact hd i j _ _ hia hjb
+    | _ => simp at rb
+  | _ => simp at ra
+
+
+
+/-! ### Densify(action=True) on sparse actions, end to end -/
+
+theorem denseOf_map_distinct (T : List (String × Nat)) (n : Nat) (as : List Val) (hrows : sparseRowsB as = true)
+    (hslots : slotsInjB T (keysOfVals as) n = true) (hd : Distinct as) : Distinct (as.map (denseOf T n)) := by
+  obtain ⟨hlt, hinj⟩ := slotsInjB_spec hslots
+  intro i j a' b' hi hj
+  simp only [List.getElem?_map, Option.map_eq_some_iff] at hi hj
+  obtain ⟨a, hia, rfl⟩ := hi
+  obtain ⟨b, hjb, rfl⟩ := hj
+  simp only [sparseRowsB, List.all_eq_true] at hrows
+  have ra := hrows a (List.mem_of_getElem? hia)
+  have rb := hrows b (List.mem_of_getElem? hjb)
+  cases a with
+  | dict d1 =>
+    cases b with
+    | dict d2 =>
+      simp only at ra rb
+      have k1 := keysOfVals_mem as i d1 hia
+      have k2 := keysOfVals_mem as j d2 hjb
+      have hsub : ∀ k ∈ d1.map (·.1) ++ d2.map (·.1), k ∈ keysOfVals as := fun k hk => by
+        rcases List.mem_append.mp hk with h | h
+        · exact k1 k h
+        · exact k2 k h
+      simp only [denseOf]
+      rw [densify_rows_pyEq (slotFn T) n d1 d2 ra rb (fun k hk => hlt k (hsub k hk))
+        (fun k hk k' hk' e => hinj k (hsub k hk) k' (hsub k' hk') e)]
+      exact hd i j _ _ hia hjb
+    | _ => simp at rb
+  | _ => simp at ra
+
+theorem densify_target (b : Prop) [Decidable b] (r : Rew) (o o' : List Val) (hd : distinctB o' = true)
+    (hkeep : ¬ b → obsEq (obsOf r o) (obsOf r o') = true) :
+    targetHypB (if b then .generic else .keep) (some r) o o' = true := by
+  by_cases hb : b
+  · simp [hb, targetHypB, hd]
+  · simp [hb, targetHypB, hkeep hb]
+
+theorem densify_run_hyp (m : DMethod) (n : Nat) (c rC fC : Bool) (T : List (String × Nat)) :
+    ∀ (s : List Inter) (st : DState) (ps : List Plan) (stEnd : DState),
+    densifyRun Cfg.fixed m n c true rC fC st s = .ok (ps, stEnd) →
+    (∀ k i, assocGet k (tableOf m stEnd) = some i → assocGet k T = some i) →
+    (∀ I ∈ s, alignedB I I = true) → (∀ I ∈ s, densifyInterHypB T n rC fC I = true) → plansHypB s ps = true
+  | [], st, ps, stEnd, h, _, _, _ => by simp [densifyRun] at h; rw [h.1]; rfl
+  | I :: rest, st, ps, stEnd, h, hT, hself, hall => by
+    simp only [densifyRun] at h
+    cases h1 : (if c then makeDense m n st I.context else .ok (st, I.context)) with
+    | error e => simp [h1] at h
+    | ok r1 =>
+      obtain ⟨st1, ctx⟩ := r1
+      simp only [h1] at h
+      have hII := hself I (by simp)
+      simp only [alignedB, Bool.and_eq_true] at hII
+      obtain ⟨⟨⟨⟨hIr, hIf⟩, _⟩, _⟩, _⟩ := hII
+      have hI := hall I (by simp)
+      simp only [densifyInterHypB, Bool.and_eq_true] at hI
+      obtain ⟨⟨hRc, hFc⟩, hA⟩ := hI
+      cases hacts : I.actions with
+      | none =>
+        simp only [hacts] at h
+        split at h
+        · simp at h
+        · rename_i st3 act h3
+          split at h
+          · simp at h
+          · rename_i ps' stE h4
+            simp only [Except.ok.injEq, Prod.mk.injEq] at h
+            obtain ⟨hp, hst⟩ := h
+            subst hst
+            rw [← hp]
+            simp only [plansHypB, Bool.and_eq_true]
+            refine ⟨?_, densify_run_hyp m n c rC fC T rest st3 ps' stE h4 hT (fun J hJ => hself J (by simp [hJ])) (fun J hJ => hall J (by simp [hJ]))⟩
+            simp [planHypB, hacts]
+      | some o =>
+        simp only [hacts] at h hA
+        simp only [Bool.and_eq_true] at hA
+        obtain ⟨⟨⟨hrows, hdist⟩, hslots⟩, hlog⟩ := hA
+        cases h2 : makeDenseList m n st1 o with
+        | error e => simp [h2] at h
+        | ok r2 =>
+          obtain ⟨st2, o'⟩ := r2
+          simp only [h2] at h
+          split at h
+          · simp at h
+          · rename_i st3 act h3
+            split at h
+            · simp at h
+            · rename_i ps' stE h4
+              simp only [Except.ok.injEq, Prod.mk.injEq] at h
+              obtain ⟨hp, hst⟩ := h
+              subst hst
+              rw [← hp]
+              have m34 := tableOf_mono m _ st3 stE (densifyRun_state Cfg.fixed m n c true rC fC rest st3 ps' stE h4)
+              -- the logged action and the table between st2 and st3
+              have hact : (∀ k i, assocGet k (tableOf m st2) = some i → assocGet k (tableOf m st3) = some i) ∧
+                  act = I.action.map (denseOf T n) := by
+                cases ha : I.action with
+                | none => simp [ha] at h3; exact ⟨fun k i hk => by rw [← h3.1]; exact hk, by rw [← h3.2]; rfl⟩
+                | some x =>
+                  simp only [ha] at h3
+                  cases hx : makeDense m n st2 x with
+                  | error e => simp [hx] at h3
+                  | ok rx =>
+                    obtain ⟨stx, x'⟩ := rx
+                    simp only [hx, Except.ok.injEq, Prod.mk.injEq] at h3
+                    obtain ⟨e1, e2⟩ := h3
+                    subst e1
+                    refine ⟨tableOf_mono m _ st2 stx (makeDense_state m n st2 stx x x' hx), ?_⟩
+                    rw [← e2, makeDense_eq_denseOf m n T st2 stx x x' hx (fun k i hk => hT k i (m34 k i hk))]; rfl
+              obtain ⟨m23, hactEq⟩ := hact
+              have ho' : o' = o.map (denseOf T n) :=
+                makeDenseList_eq_map m n T st1 o st2 o' h2 (fun k i hk => hT k i (m34 k i (m23 k i hk)))
+              have hdn : Distinct o' := by
+                rw [ho']; exact denseOf_map_distinct T n o hrows hslots ((distinctB_iff _).mp hdist)
+              have hd : distinctB o' = true := (distinctB_iff _).mpr hdn
+              have hlen : o.length = o'.length := by rw [ho']; simp
+              simp only [plansHypB, Bool.and_eq_true]
+              refine ⟨?_, densify_run_hyp m n c rC fC T rest st3 ps' stE h4 hT (fun J hJ => hself J (by simp [hJ])) (fun J hJ => hall J (by simp [hJ]))⟩
+              simp only [planHypB, hacts, Bool.and_eq_true, beq_iff_eq]
+              refine ⟨⟨⟨hlen, ?_⟩, ?_⟩, ?_⟩
+              · cases hr : I.rewards with
+                | none => simp [targetHypB]
+                | some r =>
+                  simp only [hr, Bool.or_eq_true, Bool.not_eq_true'] at hRc
+                  refine densify_target _ r o o' hd (fun hnb => ?_)
+                  rcases hRc with hnc | hrc
+                  · cases r with
+                    | seq b rs => simp [obsOf_seq, obsEq_ok_self]
+                    | _ => simp [Rew.isCallable] at hnc
+                  · have hany : o.any isDict = false := by
+                      cases hq : o.any isDict with
+                      | false => rfl
+                      | true => exact absurd ⟨⟨⟨rfl, trivial⟩, hq⟩, hrc⟩ hnb
+                    have : o = [] := by
+                      cases o with
+                      | nil => rfl
+                      | cons x xs =>
+                        simp only [sparseRowsB, List.all_cons, Bool.and_eq_true] at hrows
+                        simp only [List.any_cons, Bool.or_eq_false_iff] at hany
+                        cases x <;> simp_all [isDict]
+                    subst this
+                    have : o' = [] := by simpa using ho'
+                    subst this
+                    simpa [obsRewards, hr, hacts, optObsEq] using hIr
+              · cases hf : I.feedbacks with
+                | none => simp [targetHypB]
+                | some r =>
+                  simp only [hf, Bool.or_eq_true, Bool.not_eq_true'] at hFc
+                  refine densify_target _ r o o' hd (fun hnb => ?_)
+                  rcases hFc with hnc | hrc
+                  · cases r with
+                    | seq b rs => simp [obsOf_seq, obsEq_ok_self]
+                    | _ => simp [Rew.isCallable] at hnc
+                  · have hany : o.any isDict = false := by
+                      cases hq : o.any isDict with
+                      | false => rfl
+                      | true => exact absurd ⟨⟨⟨rfl, trivial⟩, hq⟩, hrc⟩ hnb
+                    have : o = [] := by
+                      cases o with
+                      | nil => rfl
+                      | cons x xs =>
+                        simp only [sparseRowsB, List.all_cons, Bool.and_eq_true] at hrows
+                        simp only [List.any_cons, Bool.or_eq_false_iff] at hany
+                        cases x <;> simp_all [isDict]
+                    subst this
+                    have : o' = [] := by simpa using ho'
+                    subst this
+                    simpa [obsFeedbacks, hf, hacts, optObsEq] using hIf
+              · unfold loggedHypB
+                rw [hactEq]
+                cases ha : I.action with
+                | none => simp
+                | some x =>
+                  simp only [ha, Option.map_some] at hlog ⊢
+                  cases hk : indexOf o x with
+                  | none => simp
+                  | some k =>
+                    simp only [hk] at hlog ⊢
+                    cases hb : o[k]? with
+                    | none => simp [hb] at hlog
+                    | some b =>
+                      simp only [hb] at hlog
+                      have := Val.same_sound b x hlog
+                      subst this
+                      simp [ho' ▸ hd, ho', hb, Val.same_refl]
+
+theorem densifyTable_spec (m : DMethod) (n : Nat) (c a : Bool) (s : List Inter) (st1 stEnd : DState)
+    (hprime : (match m with | .lookup prior => primeKeys (.lookup []) (initDState n) prior | _ => .ok (initDState n)) = .ok st1)
+    (hst : primeKeys (normMethod m) st1 (keysAsked c a s) = .ok stEnd) :
+    tableOf (normMethod m) stEnd = densifyTable m n c a s := by
+  cases m with
+  | hashing t => simp [normMethod, tableOf, densifyTable]
+  | lookup prior =>
+    have hst' : primeKeys (.lookup []) st1 (keysAsked c a s) = .ok stEnd := hst
+    simp only at hprime
+    simp [normMethod, tableOf, densifyTable, primeKeys_append, hprime, hst']
+
+/-- **Densify(action=True) on sparse actions, end to end (repaired code)** -/
+theorem densify_sparse_aligned' (m : DMethod) (n : Nat) (c : Bool) (s s' : List Inter)
+    (hh : densifySparseHypB (densifyTable m n c true s) n s = true)
+    (hrun : runPrim Cfg.fixed (.densify n m c true) s = .ok s') : alignedStreamB s s' = true := by
+  simp only [densifySparseHypB, Bool.and_eq_true, List.all_eq_true] at hh
+  obtain ⟨hself, hall⟩ := hh
+  simp only [runPrim, plansOf, densifyPlans] at hrun
+  split at hrun
+  · simp at hrun
+  · rename_i ps hps
+    split at hps
+    · simp at hps
+    · rename_i st1 hprime
+      split at hps
+      · rename_i ps0 stEnd hgo
+        simp only [Except.ok.injEq] at hps
+        subst hps
+        refine applyPlans_aligned ?_ hrun
+        have hT := densifyTable_spec m n c true s st1 stEnd hprime (densifyRun_state _ _ _ _ _ _ _ s st1 ps0 stEnd hgo)
+        exact densify_run_hyp (normMethod m) n c _ _ _ s st1 ps0 stEnd hgo (fun k i hk => by rw [← hT]; exact hk)
+          (alignedStreamB_self_mem hself) hall
+      · simp at hps
+
+
+
+/-! ### translator tie: Repr's mode names and EncodeCatRows' dispatch on them -/
+
+theorem repr_modes_match_source' :
+    Coba.Generated.C10.reprContextModes = allModes.map modeName ∧ Coba.Generated.C10.reprActionModes = allModes.map modeName ∧
+    Coba.Generated.C10.encodeModes = allModes.map modeName ∧
+    (∀ m : Mode, Coba.Generated.C10.valuesBranch (modeName m) = valuesBranch m) ∧
+    (∀ m : Mode, Coba.Generated.C10.collBranch (modeName m) = collBranch m) := by
+  refine ⟨by decide +kernel, by decide +kernel, by decide +kernel, fun m => ?_, fun m => ?_⟩ <;> cases m <;> decide +kernel
+
+theorem modeOfName_modeName (m : Mode) : modeOfName (modeName m) = some m := by cases m <;> decide +kernel
+
+theorem modeOfName_sound (s : String) (m : Mode) (h : modeOfName s = some m) : s = modeName m := by
+  unfold modeOfName at h
+  by_cases h1 : s = "onehot"
+  · subst h1; simp at h; subst h; rfl
+  · by_cases h2 : s = "onehot_tuple"
+    · subst h2; simp at h; subst h; rfl
+    · by_cases h3 : s = "string"
+      · subst h3; simp at h; subst h; rfl
+      · simp [h1, h2, h3] at h
+
+theorem encodeValue_branch (m : Mode) (v : Val) :
+    encodeValue m v = if valuesBranch m = "str" then strOf v
+                      else (match onehotOf v with | .ok h => .ok (.tuple h) | .error e => .error e) := by
+  cases m <;> simp [encodeValue, valuesBranch] <;> cases onehotOf v <;> rfl
+
+theorem collBranch_injective (m m' : Mode) (h : collBranch m = collBranch m') : m = m' := by
+  cases m <;> cases m' <;> simp [collBranch] at h <;> rfl
+
+theorem encodeAt_string_iff (m : Mode) : collBranch m = "str" ↔ m = .string := by cases m <;> simp [collBranch]
+theorem encodeAt_flat_iff (m : Mode) : collBranch m = "flat" ↔ m = .onehot := by cases m <;> simp [collBranch]
 
 end Coba.C10
